@@ -22,7 +22,7 @@ RULE = (
 )
 ASSUMPTIONS = ["'same terminal string' is judged with the library's own str() (C01 establishes what str() displays)"]
 SHARDS = {"quick": 4, "thorough": 16}
-HOWS = ["same", "resplit", "shift_boundary", "shift_boundary", "move_empty_run", "add_empty_run", "add_false_att", "change_att", "change_text", "termstr_as_str", "text_as_str", "independent", "independent_str"]
+HOWS = ["same", "resplit", "shift_boundary", "shift_boundary", "move_empty_run", "add_empty_run", "add_false_att", "change_att", "change_text", "termstr_as_str", "termstr_in_plain_run", "text_as_str", "independent", "independent_str"]
 
 
 def derive(case):
@@ -80,6 +80,8 @@ def derive(case):
         return {"desc": b}
     if how == "termstr_as_str":
         return {"termstr_of_a": True}
+    if how == "termstr_in_plain_run":
+        return {"termstr_of_a_as_run": True}
     if how == "text_as_str":
         return {"str": "".join(t for t, at in a)}
     if how == "independent_str":
@@ -187,6 +189,14 @@ def run_case(case):
     if "termstr_of_a" in bspec:
         b, bc = str(a), None
         res.label("str_operand")
+    elif "termstr_of_a_as_run" in bspec:
+        # the terminal string of a as the *text* of an unformatted run (a plain str operand is taken verbatim): it
+        # produces the same terminal string as a, with a different length and different runs
+        from curtsies.formatstring import FmtStr
+
+        b, bc = (FmtStr() + str(a)) if case.get("k", 0) % 2 else FmtStr().join([str(a)]), None
+        res.label("escape_codes_as_plain_text_operand")
+        res.nontrivial = True
     elif "str" in bspec:
         b, bc = bspec["str"], [(ch, None, None, ()) for ch in bspec["str"]]
         res.label("str_operand")
